@@ -58,10 +58,15 @@ RULE = (
     "complete product: command kind {plain AsyncScript, Scanner, UDSScanner on in-memory transport + fake ECU} x "
     "(exit kind, lifecycle point) {normal return; sys.exit(0|1|3|'text'), ConnectionError, UDSException, RuntimeError, "
     "real SIGINT - each at setup-early/-late, main, teardown-early/-late (early/late = before/after the base class "
-    "step); SIGINT at pre-hook, db-open, db-close, post-hook; database fault at db-open and db-close} x artifacts "
+    "step); SIGINT at pre-hook, db-open, db-close, post-hook; database fault at db-open and db-close; lock file cannot "
+    "be taken (OSError)} x artifacts "
     "dir on/off x database on/off x lock file on/off x hook variant {disabled, ok, pre fails, post fails"
     " [, both fail: thorough]}; combinations whose point does not exist (hook point without hooks, db point without "
-    "db) are counted as unreachable, not evaluated. One case = one forked process running the CLI's "
+    "db, lock fault without lock) are counted as unreachable, not evaluated. Plus the history shape 'an outer command awaits "
+    "an inner command's entry_point() in its main() while its own log file is open' (what `script rerun` does): inner command "
+    "kind x (exit kind, point inside run) x inner artifacts on/off x database on/off, outer artifacts on; every command of the "
+    "process is held to the META / run row / log oracle, and each log handler must stay open and attached until its owner's own "
+    "final bookkeeping. One case = one forked process running the CLI's "
     "asyncio.run(cmd.entry_point()). non-trivial = distinct (command, exit kind, point, resources, hook variant) whose "
     "planned exit actually fired at the planned point (or the plain normal run)"
 )
@@ -73,7 +78,9 @@ ASSUMPTIONS = [
     "to 70 for a plain script - as documented in BaseCommand.CATCHED_EXCEPTIONS / entry_point",
     "a Ctrl-C that arrives after the run's outcome is fixed (db-close, post-hook) may be reported as 130 or as the run's own code, "
     "but process, META.json and database must agree",
-    "a database that cannot be opened is not an ending the statement lists: only 'no success claimed, no contradictory record' is demanded",
+    "a lock file or database that cannot be opened is not an ending the statement's mapping lists: any non-zero status is accepted, "
+    "but what exists afterwards must be consistent - a run directory that was created has a META.json with that status, its log "
+    "handler is closed and detached, a run row that exists is complete",
     "the lock is checked in-process (second open file description) when entry_point() returns; when an exception leaves entry_point() "
     "the process ends and the kernel drops the lock",
     "'log closed' is judged in-process when asyncio.run() ends (file object closed, writer thread joined, handler detached) and only "
@@ -1309,5 +1316,7 @@ def finish(merged: Result, tier: str) -> dict[str, Any]:
             "scenarios_per_command": {k: len(M.scenarios(k)) for k in M.CMDS},
             "resource_subsets": 8,
             "hook_variants": list(hook_variants(tier)),
+            "nested_scenarios_per_inner_command": {k: len(M.nested_scenarios(k)) for k in M.CMDS},
+            "nested_resource_subsets": 4,
         }
     }
